@@ -391,7 +391,7 @@ REGISTRY = {
                   ("PsProps.C08", "Ps.Props.C08_l1_range"), ("PsProps.C08", "Ps.Props.C08_sieveSize_mod8_or_pow2"),
                   ("PsProps.C08", "Ps.Props.C08_counts_independent_of_threads"),
                   ("PsProps.C08", "Ps.Props.C08_iterator_independent")],
-        tie=combine(("cfg", streams.CFG.tie), ("presieve", streams.PRESIEVE.tie),
+        tie=combine(("cfg", streams.CFG.tie), ("sysfs", streams.SYSFS.tie), ("presieve", streams.PRESIEVE.tie),
                     ("presieve-portable", on_variant("portable", streams.PRESIEVE.tie)),
                     ("segment-portable", on_variant("portable", segment_tie)),
                     ("count-portable", on_variant("portable", count_tie)),
@@ -401,8 +401,8 @@ REGISTRY = {
             "cache descriptions are injected by overwriting the fields of the CpuInfo singleton through the friend probe "
             "(hook H0); parsing of /sys by CpuInfo::init (iostream, std::stoul, exceptions swallowed by the constructor) is "
             "not modelled"],
-        undischarged=["'the library always initialises' for malformed sysfs files: OS/iostream behaviour, not expressible "
-                      "in the model", "AVX512 vs portable code paths are tied by running the segment/count/print streams on "
+        undischarged=["'the library always initialises' for malformed sysfs files: decided by the sysfs stream (one process start-up "
+                      "per substituted tree, hook H2), not by a theorem about iostream / std::stoul", "AVX512 vs portable code paths are tied by running the segment/count/print streams on "
                       "two builds (runtime dispatch on this AVX512 machine, -DWITH_MULTIARCH=OFF), not by a proof about SIMD"],
         explanation="clamps and get_sieve_size() range for every cache description; sieve size multiple of 8 or power of two "
                     "for every configuration; counts independent of threads/piece length; iterator independent of block "
